@@ -63,12 +63,15 @@ CFG = {
     "assumptions": [
         "world_respects: a name listed in the registry record is never `not registered` for the model's lookup functions (the record is the engine's registry, confirmed by probing)",
         "format_is_utf8 is a code-point level statement about the model of Value::format; the byte level (UTF-8 encoding of each scalar) is Rust's String invariant",
-        "compile_always_checks (C07_compile_always_checks, C07_compiled_code_sound) is proved for the whole statement language of the shared compiler "
-        "port Model/Compile.v (tied to the real compiler by C03's `compile` family) under its well-formedness predicate wf_body (break/continue only "
-        "inside a for body and not across a capture: what the parser enforces); the statement is `exists tbl, check_table (compile ss) a_empty tbl = true` "
-        "(any accepted table is sound: C07_table_sound), not that the `infer` heuristic finds it. Constructs Model/Compile.v lacks (subscripts, slices, "
-        "ternaries, arithmetic: covered by C07_compile_always_checks_partial over a local port; literals with elements, comprehensions, components, "
-        "blocks: not covered) are validated per real chunk, every run. Stability of the validator under Chunk::optimize is not proved; both the "
+        "compile_always_checks (C07_compile_always_checks, C07_compiled_code_sound) is proved for the whole language of the shared compiler "
+        "port Model/Compile.v (tied to the real compiler by C03's `compile` family, incl. the extended expression forms): statements text, print, "
+        "if/elif/else, for/else, set, set_global, set blocks, filter sections, include, break, continue; expressions constants, variables, loop.*, "
+        "attributes and subscripts (plain and optional), slices, not/and/or, every binary operator, unary minus, ternary, tests, filters and function "
+        "calls with kwargs, array and map literals with spreads. Only hypothesis: brk_body (break/continue only inside a for body and not across a "
+        "capture: what the parser enforces; implied by C03's wf_body, C07_compile_always_checks_wf); the statement is `exists tbl, check_table "
+        "(compile ss) a_empty tbl = true` (any accepted table is sound: C07_table_sound), not that the `infer` heuristic finds it. The former local-port "
+        "theorem C07_compile_always_checks_partial is subsumed and removed. Constructs Model/Compile.v lacks (list comprehensions, component calls, "
+        "blocks/inheritance) are validated per real chunk, every run. Stability of the validator under Chunk::optimize is not proved; both the "
         "before- and after-optimisation listing of every real chunk are validated instead",
     ],
 }
@@ -82,7 +85,7 @@ MANIFEST = (
     "or TemplateNotFound, and normal termination leaves the three stacks as on entry (empty at the entry points); get_item/slice never index out of "
     "bounds for any length/operand; Value::format and escape_html only emit input scalars or ASCII; for every well-formed statement list of the shared compiler port "
     "Model/Compile.v the compiled chunk has an accepted table (compile_always_checks), hence compiled code of that language never underflows and ends "
-    "balanced (closed theorem about the compiler model); an expression fragment with subscripts/ternaries/arithmetic is covered over a local port. Partial by nature: panics inside std / built-ins "
+    "balanced (closed theorem about the compiler model; the port covers every expression form except comprehensions and component calls, listing-checked against the real compiler). Partial by nature: panics inside std / built-ins "
     "and native stack exhaustion are observed (catch_unwind over ~400k renders per quick run), not proved.",
     "§6 C07",
 )
